@@ -238,7 +238,7 @@ fn main() {
     };
     handle_replay(ctx, opts, &no_extra);
 
-    let depth = if ctx.quick() { 2 } else { 4 };
+    let depth = if ctx.quick() { 3 } else { 8 };
     let mut cases = vec![];
     for partial in [false, true] {
         for t in [M::Plain, M::Def, M::Unm, M::Both] {
